@@ -118,6 +118,10 @@ func c30MakeDonor(t *testing.T, rng *kit.RNG, version uint) c30Donor {
 var c30HexID = regexp.MustCompile(`^[0-9a-f]{64}$`)
 
 func c30Populate(be *kit.VBackend, c c30Case, donor c30Donor, rng *kit.RNG) {
+	// in a quarter of the garbage cases every pre-existing file is zero bytes long (files
+	// truncated by a full disk / interrupted sync): they still make the location "in use"
+	// (seeded change C30-1)
+	allZero := c.Garbage && rng.Chance(1, 4)
 	put := func(t backend.FileType, bit int) {
 		if c.Mask&bit == 0 {
 			return
@@ -134,6 +138,10 @@ func c30Populate(be *kit.VBackend, c c30Case, donor c30Donor, rng *kit.RNG) {
 			}
 			data := rng.Bytes(rng.Range(0, 300))
 			name := restic.Hash(data).String()
+			if allZero {
+				name = restic.Hash(rng.Bytes(16)).String()
+				data = []byte{}
+			}
 			if t == backend.ConfigFile {
 				name = ""
 			}
